@@ -76,6 +76,9 @@ func (c c16Case) cause() string {
 	if c.Contract != "" {
 		return "contract-" + c.Contract
 	}
+	if strings.HasPrefix(c.Fault.Op, "inject:") || strings.HasPrefix(c.Fault.Op, "signer:") {
+		return c.faultPoint()
+	}
 	faults := []mutation{c.Fault}
 	if c.Fault2 != nil {
 		faults = append(faults, *c.Fault2)
@@ -176,6 +179,27 @@ func poolSpent(n *rhpmitm.Node) map[types.SiacoinOutputID]bool {
 		}
 	}
 	return out
+}
+
+// pooledContractIDs lists the contracts that transactions in the node's pool
+// would create or resolve (the pooled formation of a still-unconfirmed
+// existing contract excepted).
+func pooledContractIDs(n *rhpmitm.Node, existing *rhp.ContractRevision, existingPooled bool) []types.FileContractID {
+	var ids []types.FileContractID
+	for _, txn := range n.CM.V2PoolTransactions() {
+		txid := txn.ID()
+		for i := range txn.FileContracts {
+			id := txn.V2FileContractID(txid, i)
+			if existingPooled && existing != nil && id == existing.ID {
+				continue
+			}
+			ids = append(ids, id)
+		}
+		for _, res := range txn.FileContractResolutions {
+			ids = append(ids, res.Parent.ID)
+		}
+	}
+	return ids
 }
 
 // contractInState hands out a contract to renew / refresh in the given state.
@@ -632,7 +656,7 @@ func (x *c16Lab) attempt(cse c16Case, noCleanup bool) (succeeded bool) {
 		// the node's pool are not reservations: they are accounted separately
 		hostWant, hostResidue := hostPre.Without(poolSpent(l.HostNode))
 		rentWant, rentResidue := rentPre.Without(poolSpent(l.RenterNode))
-		if hostResidue+rentResidue > 0 {
+		if hostResidue+rentResidue > 0 || len(pooledContractIDs(l.HostNode, existing, cse.Contract == "unconfirmed")) > 0 {
 			// a fully signed transaction was pooled before the host failed: no
 			// contract is recorded and nothing is reserved, but the pooled
 			// transaction remains (no handler order can avoid one of the two
@@ -651,7 +675,7 @@ func (x *c16Lab) attempt(cse c16Case, noCleanup bool) (succeeded bool) {
 			r.Count("reservation_leaks_observed", 1)
 		}
 	}
-	if x.rpc != "form" && committed == nil && cse.Contract == "" {
+	if x.rpc != "form" && committed == nil && cse.Contract == "" && !residue {
 		x.pool.giveBack(*existing)
 	}
 	if noCleanup && committed == nil {
@@ -717,6 +741,9 @@ func (x *c16Lab) attempt(cse c16Case, noCleanup bool) (succeeded bool) {
 	} else {
 		for id, ds := range diffs {
 			for _, d := range ds {
+				if existing != nil && cse.Contract == "unconfirmed" && id == existing.ID && d.Created && d.Resolution == nil {
+					continue // the existing contract's own, honest formation
+				}
 				if d.Created || d.Resolution != nil {
 					viol("contract-on-chain-after-failure", "a contract was created / resolved on chain although the attempt failed without the host recording it", id)
 				}
